@@ -3,6 +3,7 @@ package main
 import (
 	"go/constant"
 	"go/token"
+	"go/types"
 
 	"golang.org/x/tools/go/ssa"
 )
@@ -163,5 +164,1028 @@ func r01_6(c *Ctx) {
 		if n == 0 {
 			c.bad(fnLabel(fn)+":retry-parse", P.pos(fn.Pos()), "no numeric parse of the retry field found in its switch case: the retry field is not interpreted")
 		}
+	}
+}
+
+// ---------------------------------------------------------------------------
+// the remaining C01 rules
+
+func init() {
+	prop(&PropertySpec{
+		ID: "C01", Level: "other",
+		Rules: []string{"R01.1", "R01.2", "R01.3", "R01.4", "R01.5", "R01.6", "R01.7", "R01.8", "R14.4", "R02.5", "R11.5", "R11.7"},
+		Explanation: "Decides the interpreter (the iterator returned by read and its yield wrapper), not the byte scanner: R01.1 field tables agree (getFieldName has one case per field-name constant and a rejecting default; both interpreters have a case for every name; maxFieldNameLength covers the longest name; encoder prefixes are name+\": \"); " +
+			"R01.2 iterator protocol (every yield is an event with nil error or a zero event with an error; nothing is yielded after an error or after the consumer stopped); R01.3 dispatch resets type and data, sets dirty false and does not touch the last-event-ID buffer; R01.4 dirty becomes true exactly on paths that change interpreter state, stays unchanged otherwise, false only on dispatch; " +
+			"R01.5 id values containing NUL are ignored (store dominated by the no-NUL edge; no other writer); R01.6 digits-only retry; R01.7 at the end a pending event is flushed only when dirty and the parser reports io.EOF, and the error yield happens only for a non-nil error; R01.8 field splitting shape in scanSegment (name = text before the first colon, value = rest with at most one leading space removed, blank line = end of event, comment only when the colon is first); " +
+			"plus the line-break predicates (R14.4), the Field.Value provenance (R02.5) and the parser's end-of-input links (R11.5, R11.7).",
+		NotDecided: "that NewlineIndex/splitFunc/scanSegment implement the WHATWG line grammar for all byte strings and read segmentations (offset arithmetic, CR at buffer end, BOM position — the BOM-after-blank-lines deviation D7 is NOT decided); UTF-8 handling; events straddling buffer sizes.",
+	})
+	register(&Rule{ID: "R01.1", Title: "field-table agreement between parser, interpreters and encoder", Floor: 12, Run: r01_1})
+	register(&Rule{ID: "R01.2", Title: "iterator protocol: event xor error; nothing after an error or a stop", Floor: 4, Run: r01_2})
+	register(&Rule{ID: "R01.3", Title: "dispatch resets type/data/dirty and keeps the last-event-ID buffer", Floor: 3, Run: r01_3})
+	register(&Rule{ID: "R01.4", Title: "dirty discipline per switch path", Floor: 6, Run: r01_4})
+	register(&Rule{ID: "R01.5", Title: "NUL-containing id values are ignored; no other writer of the ID buffer", Floor: 2, Run: r01_5})
+	register(&Rule{ID: "R01.7", Title: "EOF flush only when dirty and clean EOF; error yield only for a non-nil error", Floor: 2, Run: r01_7})
+	register(&Rule{ID: "R01.8", Title: "field splitting shape in scanSegment / trimFirstSpace", Floor: 5, Run: r01_8})
+}
+
+// fieldNameConsts returns the FieldName constants of package parser: name -> value.
+func fieldNameConsts(P *Program) map[string]string {
+	out := map[string]string{}
+	sc := P.Parser.Pkg.Scope()
+	for _, nm := range sc.Names() {
+		k, ok := sc.Lookup(nm).(*types.Const)
+		if !ok || !typeIs(k.Type(), "parser", "FieldName") {
+			continue
+		}
+		if k.Val().Kind() == constant.String {
+			out[nm] = constant.StringVal(k.Val())
+		}
+	}
+	return out
+}
+
+// globalBytesInit: the constant byte content a []byte global of sse is initialised with.
+func globalBytesInit(P *Program, g *ssa.Global) (string, bool) {
+	init := P.SSE.Func("init")
+	if init == nil {
+		return "", false
+	}
+	var val string
+	found := false
+	n := 0
+	eachInstr(init, func(in ssa.Instruction) {
+		st, ok := in.(*ssa.Store)
+		if !ok || st.Addr != ssa.Value(g) {
+			return
+		}
+		n++
+		switch v := st.Val.(type) {
+		case *ssa.Convert:
+			if s, ok := constString(v.X); ok {
+				val, found = s, true
+			}
+		case *ssa.Slice:
+			if al, ok := v.X.(*ssa.Alloc); ok {
+				arr, okA := deref(al.Type()).Underlying().(*types.Array)
+				if !okA {
+					return
+				}
+				buf := make([]byte, arr.Len())
+				good := true
+				for _, r := range *al.Referrers() {
+					ia, ok := r.(*ssa.IndexAddr)
+					if !ok {
+						continue
+					}
+					idx, okI := constInt(ia.Index)
+					for _, rr := range *ia.Referrers() {
+						if s2, ok := rr.(*ssa.Store); ok && s2.Addr == ssa.Value(ia) {
+							b, okB := constInt(s2.Val)
+							if !okI || !okB || idx < 0 || int(idx) >= len(buf) {
+								good = false
+								continue
+							}
+							buf[idx] = byte(b)
+						}
+					}
+				}
+				if good {
+					val, found = string(buf), true
+				}
+			}
+		}
+	})
+	// the global must not be reassigned anywhere else
+	for _, fn := range P.Funcs {
+		if fn == init {
+			continue
+		}
+		eachInstr(fn, func(in ssa.Instruction) {
+			if st, ok := in.(*ssa.Store); ok && st.Addr == ssa.Value(g) {
+				found = false
+			}
+		})
+	}
+	return val, found && n == 1
+}
+
+func r01_1(c *Ctx) {
+	P := c.P
+	consts := fieldNameConsts(P)
+	K := map[string]string{} // value -> const name, without the comment sentinel
+	comment := ""
+	for nm, v := range consts {
+		if v == ":" {
+			comment = nm
+			continue
+		}
+		K[v] = nm
+	}
+	if len(K) < 4 || comment == "" {
+		c.undecided("parser:FieldName-constants", "-", "expected the data/event/retry/id constants and the comment sentinel in package parser")
+		return
+	}
+	// (i) getFieldName
+	gf := P.Fn("parser.getFieldName")
+	if gf == nil {
+		c.anchor("parser.getFieldName")
+	} else {
+		seen := map[string]bool{}
+		hasDefault := false
+		for _, ret := range returnsOf(gf) {
+			if len(ret.Results) != 2 {
+				continue
+			}
+			s, okS := constString(ret.Results[0])
+			b, okB := constBool(ret.Results[1])
+			if !okS || !okB {
+				c.undecided("parser.getFieldName:return", P.ipos(ret), "non-constant return")
+				continue
+			}
+			if b {
+				// guarded by param == s
+				g := false
+				for _, ifi := range ifsIn(gf) {
+					cnd := decodeIf(ifi)
+					if cnd.Y == nil || cnd.Op != token.EQL {
+						continue
+					}
+					if k, ok := constString(cnd.Y); ok && k == s && stripConvAll(cnd.X) == ssa.Value(gf.Params[0]) && edgeDominates(ifi.Block(), cnd.succWhen(true), ret.Block()) {
+						g = true
+					}
+				}
+				c.check(g && K[s] != "", "parser.getFieldName:case("+s+")", P.ipos(ret), "returns ("+s+", true) exactly when the input equals it", "getFieldName accepts a name that is not a field-name constant, or not under equality with it")
+				seen[s] = true
+			} else {
+				hasDefault = s == ""
+			}
+		}
+		for v := range K {
+			if !seen[v] {
+				c.bad("parser.getFieldName:case("+v+")", P.pos(gf.Pos()), "getFieldName has no accepting case for field name "+v+": such fields are dropped by the decoder")
+			}
+		}
+		c.check(hasDefault, "parser.getFieldName:default", P.pos(gf.Pos()), "unknown names are rejected (\"\", false)", "getFieldName has no rejecting default")
+	}
+	// (ii) iterator switch, (iii) UnmarshalText switch
+	if it := iteratorBody(P); it != nil {
+		for v := range K {
+			c.check(len(fieldNameEdges(it, v)) > 0, fnLabel(it)+":case("+v+")", P.pos(it.Pos()), "the interpreter has a case for "+v, "the stream interpreter has no case for field "+v)
+		}
+	} else {
+		c.anchor("iterator body")
+	}
+	if um := P.Fn("(*Message).UnmarshalText"); um != nil {
+		for v := range consts {
+			vv := consts[v]
+			c.check(len(fieldNameEdges(um, vv)) > 0, fnLabel(um)+":case("+vv+")", P.pos(um.Pos()), "UnmarshalText has a case for "+vv, "Message.UnmarshalText has no case for field "+vv)
+		}
+	} else {
+		c.anchor("(*Message).UnmarshalText")
+	}
+	// (iv) maxFieldNameLength
+	if mo, ok := P.Parser.Pkg.Scope().Lookup("maxFieldNameLength").(*types.Const); ok {
+		m, _ := constant.Int64Val(mo.Val())
+		mx := 0
+		for v := range K {
+			if len(v) > mx {
+				mx = len(v)
+			}
+		}
+		c.check(int(m) >= mx, "parser:maxFieldNameLength", P.pos(mo.Pos()), "maxFieldNameLength covers the longest field name", "maxFieldNameLength is smaller than the longest field name: that field is never recognised")
+	} else {
+		// the bound may be written as a literal in scanSegment; checked by R01.8
+		c.ok("parser:maxFieldNameLength", "-", "no named bound (checked at its use in R01.8)")
+	}
+	// (v) encoder prefixes
+	checkPrefix := func(fnName, want string, pick func(fn *ssa.Function) []ssa.Value) {
+		fn := P.Fn(fnName)
+		if fn == nil {
+			c.anchor(fnName)
+			return
+		}
+		vals := pick(fn)
+		if len(vals) == 0 {
+			c.bad(fnLabel(fn)+":prefix", P.pos(fn.Pos()), "no prefix constant found for this line writer")
+			return
+		}
+		for _, v := range vals {
+			a, ok := loadedFrom(v)
+			g, isG := a.(*ssa.Global)
+			if !ok || !isG {
+				c.undecided(fnLabel(fn)+":prefix", P.pos(fn.Pos()), "prefix is not a package-level constant slice: "+describe(v))
+				continue
+			}
+			s, ok := globalBytesInit(P, g)
+			c.check(ok && s == want, fnLabel(fn)+":prefix("+g.Name()+")", P.pos(g.Pos()), "prefix constant is "+quote(want), "prefix constant "+g.Name()+" is "+quote(s)+", expected "+quote(want)+" (field name, colon, exactly one space): the decoder misreads or drops the field")
+		}
+	}
+	argOfCall := func(callee string, idx int) func(fn *ssa.Function) []ssa.Value {
+		return func(fn *ssa.Function) []ssa.Value {
+			var out []ssa.Value
+			eachInstr(fn, func(in ssa.Instruction) {
+				if call, ok := isModCall(in, callee); ok {
+					out = append(out, call.Call.Args[idx])
+				}
+			})
+			return out
+		}
+	}
+	idV, evV, rtV, dtV := "", "", "", ""
+	for v, nm := range K {
+		switch nm {
+		case "FieldNameID":
+			idV = v
+		case "FieldNameEvent":
+			evV = v
+		case "FieldNameRetry":
+			rtV = v
+		case "FieldNameData":
+			dtV = v
+		}
+	}
+	checkPrefix("(*Message).writeID", idV+": ", argOfCall("(*Message).writeMessageField", 3))
+	checkPrefix("(*Message).writeType", evV+": ", argOfCall("(*Message).writeMessageField", 3))
+	firstWrite := func(fn *ssa.Function) []ssa.Value {
+		var out []ssa.Value
+		eachInstr(fn, func(in ssa.Instruction) {
+			if ci, ok := isInvoke(in, "", "", "Write"); ok && len(out) == 0 {
+				out = append(out, ci.Common().Args[0])
+			}
+		})
+		return out
+	}
+	checkPrefix("(*Message).writeRetry", rtV+": ", firstWrite)
+	// chunk.WriteTo: phi(data, comment) selected by isComment
+	if cw := P.Fn("(*chunk).WriteTo"); cw != nil {
+		var first ssa.Value
+		eachInstr(cw, func(in ssa.Instruction) {
+			if ci, ok := isInvoke(in, "", "", "Write"); ok && first == nil {
+				first = ci.Common().Args[0]
+			}
+		})
+		okSel := false
+		if phi, ok := first.(*ssa.Phi); ok && len(phi.Edges) == 2 {
+			vals := map[string]bool{}
+			for i, e := range phi.Edges {
+				a, ok := loadedFrom(e)
+				g, isG := a.(*ssa.Global)
+				if !ok || !isG {
+					continue
+				}
+				s, ok := globalBytesInit(P, g)
+				if !ok {
+					continue
+				}
+				pred := phi.Block().Preds[i]
+				isCm := guardedByBool(cw, pred, func(v ssa.Value) bool { _, ok := isFieldLoad(v, "chunk", "isComment"); return ok }, true)
+				if s == ": " && isCm {
+					vals["comment"] = true
+				}
+				if s == dtV+": " && !isCm {
+					vals["data"] = true
+				}
+			}
+			okSel = vals["comment"] && vals["data"]
+		}
+		c.check(okSel, fnLabel(cw)+":prefix", P.pos(cw.Pos()), "chunks are written with \"data: \" and comments with \": \"", "chunk.WriteTo does not select \"data: \" for data and \": \" for comments")
+	} else {
+		c.anchor("(*chunk).WriteTo")
+	}
+}
+
+func quote(s string) string {
+	out := "\""
+	for _, r := range s {
+		switch r {
+		case '\n':
+			out += "\\n"
+		case '\r':
+			out += "\\r"
+		default:
+			out += string(r)
+		}
+	}
+	return out + "\""
+}
+
+func r01_2(c *Ctx) {
+	P := c.P
+	ip := findIterParts(P)
+	if ip == nil {
+		c.anchor("iterator body")
+		return
+	}
+	it := ip.fn
+	fns := []*ssa.Function{it}
+	if ip.doYield != nil {
+		fns = append(fns, ip.doYield)
+	}
+	isZeroEvent := func(v ssa.Value) bool {
+		k, ok := v.(*ssa.Const)
+		return ok && k.Value == nil
+	}
+	type ycall struct {
+		call  *ssa.Call
+		isErr bool
+	}
+	var direct []ycall
+	for _, fn := range fns {
+		eachInstr(fn, func(in ssa.Instruction) {
+			call, ok := isYieldCall(in)
+			if !ok {
+				return
+			}
+			name := fnLabel(fn) + ":yield"
+			if len(call.Call.Args) != 2 {
+				c.undecided(name, P.ipos(call), "arity")
+				return
+			}
+			ev, er := call.Call.Args[0], call.Call.Args[1]
+			switch {
+			case isNilConst(er):
+				c.ok(name+"(event)", P.ipos(call), "event yield carries a nil error")
+				if fn == it {
+					direct = append(direct, ycall{call, false})
+				}
+			case isZeroEvent(ev):
+				c.ok(name+"(error)", P.ipos(call), "error yield carries the zero Event")
+				if fn == it {
+					direct = append(direct, ycall{call, true})
+				}
+			default:
+				c.bad(name, P.ipos(call), "a yield carries both a non-zero Event and a possibly non-nil error: an event is yielded together with an error")
+			}
+		})
+	}
+	// doYield returns the yield's result
+	if ip.doYield != nil {
+		good := true
+		for _, ret := range returnsOf(ip.doYield) {
+			for _, s := range sources(ret.Results[0]) {
+				if _, ok := isYieldCall(asInstr(s)); !ok {
+					good = false
+				}
+			}
+		}
+		c.check(good, fnLabel(ip.doYield)+":returns-yield-result", P.pos(ip.doYield.Pos()), "the wrapper returns the consumer's answer", "the yield wrapper does not return the consumer's answer: stopping the iteration is not honoured")
+	}
+	isAnyYield := func(in ssa.Instruction) bool {
+		if _, ok := isYieldCall(in); ok {
+			return true
+		}
+		if call, ok := in.(*ssa.Call); ok && ip.doYieldMC != nil && call.Call.Value == ssa.Value(ip.doYieldMC) {
+			return true
+		}
+		return false
+	}
+	// event yields in the iterator (direct or through the wrapper): false edge => no more yields
+	eachInstr(it, func(in ssa.Instruction) {
+		call, ok := in.(*ssa.Call)
+		if !ok || !isAnyYield(in) {
+			return
+		}
+		isErr := false
+		for _, d := range direct {
+			if d.call == call && d.isErr {
+				isErr = true
+			}
+		}
+		name := fnLabel(it) + ":after-yield"
+		if isErr {
+			again := false
+			forward([]startPoint{afterInstr(call)}, func(x ssa.Instruction) searchAction {
+				if isAnyYield(x) {
+					again = true
+				}
+				return cont
+			})
+			c.check(!again, name+"(error)", P.ipos(call), "nothing is yielded after the error", "something can be yielded after an error was yielded")
+			return
+		}
+		var fe *cfgEdge
+		for _, ifi := range ifsIn(it) {
+			if s, ok := boolEdge(ifi, func(v ssa.Value) bool { return v == ssa.Value(call) }); ok {
+				fe = &cfgEdge{ifi.Block(), 1 - s}
+			}
+		}
+		if fe == nil {
+			c.bad(name+"(event)", P.ipos(call), "the consumer's answer to an event yield is ignored: stopping early does not yield a prefix")
+			return
+		}
+		again := false
+		_, exit := forward([]startPoint{atEdge(fe.From, fe.Idx)}, func(x ssa.Instruction) searchAction {
+			if isAnyYield(x) {
+				again = true
+			}
+			return cont
+		})
+		c.check(!again && exit, name+"(event)", P.ipos(call), "a false answer leads to return without further yields", "after the consumer stopped, another event or error can still be yielded")
+	})
+}
+
+func asInstr(v ssa.Value) ssa.Instruction {
+	in, _ := v.(ssa.Instruction)
+	return in
+}
+
+// interpParts: cells of the interpreter inside the iterator.
+type interpParts struct {
+	*iterParts
+	typCell  *ssa.Alloc
+	sb       *ssa.Alloc
+	idCell   ssa.Value // free variable holding lastEventID
+	onRetry  ssa.Value // free variable holding the retry callback
+	loopYield *ssa.Call // the doYield call inside the loop
+	tailYield *ssa.Call // the doYield call after the loop
+	dirtyHead ssa.Value
+}
+
+func findInterp(P *Program) *interpParts {
+	ip := findIterParts(P)
+	if ip == nil || ip.next == nil || ip.doYieldMC == nil {
+		return nil
+	}
+	x := &interpParts{iterParts: ip}
+	it := ip.fn
+	// doYield's bindings: yield cell, lastEventID freevar, typ cell
+	for i, b := range ip.doYieldMC.Bindings {
+		fv := ip.doYield.FreeVars[i]
+		if deref(fv.Type()).String() != "string" {
+			continue
+		}
+		if al, ok := b.(*ssa.Alloc); ok {
+			x.typCell = al
+		} else if f2, ok := b.(*ssa.FreeVar); ok {
+			x.idCell = f2
+		}
+	}
+	eachInstr(it, func(in ssa.Instruction) {
+		if al, ok := in.(*ssa.Alloc); ok && deref(al.Type()).String() == "strings.Builder" {
+			x.sb = al
+		}
+		if call, ok := in.(*ssa.Call); ok && call.Call.Value == ssa.Value(ip.doYieldMC) {
+			if len(loopsContaining(it, call.Block())) > 0 {
+				x.loopYield = call
+			} else {
+				x.tailYield = call
+			}
+		}
+	})
+	for _, fv := range it.FreeVars {
+		if deref(fv.Type()).String() == "func(int64)" {
+			x.onRetry = fv
+		}
+	}
+	if x.loopYield != nil {
+		for _, ifi := range ifsIn(it) {
+			if _, isPhi := ifi.Cond.(*ssa.Phi); isPhi && edgeDominates(ifi.Block(), 0, x.loopYield.Block()) {
+				x.dirtyHead = ifi.Cond
+			}
+		}
+	}
+	return x
+}
+
+func (x *interpParts) isTypStore(in ssa.Instruction) (*ssa.Store, bool) {
+	st, ok := in.(*ssa.Store)
+	return st, ok && x.typCell != nil && st.Addr == ssa.Value(x.typCell)
+}
+func (x *interpParts) isIDStore(in ssa.Instruction) (*ssa.Store, bool) {
+	st, ok := in.(*ssa.Store)
+	return st, ok && x.idCell != nil && st.Addr == x.idCell
+}
+func (x *interpParts) isSBCall(in ssa.Instruction, method string) bool {
+	call, ok := isStaticCall(in, "(*strings.Builder)."+method)
+	return ok && x.sb != nil && call.Call.Args[0] == ssa.Value(x.sb)
+}
+func (x *interpParts) isOnRetryCall(in ssa.Instruction) bool {
+	call, ok := in.(*ssa.Call)
+	if !ok || x.onRetry == nil || call.Call.StaticCallee() != nil || call.Call.IsInvoke() {
+		return false
+	}
+	a, ok := loadedFrom(call.Call.Value)
+	return ok && a == x.onRetry
+}
+
+func r01_3(c *Ctx) {
+	P := c.P
+	x := findInterp(P)
+	if x == nil || x.loopYield == nil || x.typCell == nil || x.sb == nil {
+		c.anchor("interpreter cells (type, data builder, in-loop dispatch)")
+		return
+	}
+	it := x.fn
+	var te *cfgEdge
+	for _, ifi := range ifsIn(it) {
+		if s, ok := boolEdge(ifi, func(v ssa.Value) bool { return v == ssa.Value(x.loopYield) }); ok {
+			te = &cfgEdge{ifi.Block(), s}
+		}
+	}
+	if te == nil {
+		c.bad(fnLabel(it)+":dispatch", P.ipos(x.loopYield), "the in-loop dispatch does not test the consumer's answer")
+		return
+	}
+	start := atEdge(te.From, te.Idx)
+	missTyp := reachesAvoiding(start, x.next, func(in ssa.Instruction) bool {
+		st, ok := x.isTypStore(in)
+		if !ok {
+			return false
+		}
+		s, isS := constString(st.Val)
+		return isS && s == ""
+	}, nil)
+	c.check(!missTyp, fnLabel(it)+":dispatch-resets-type", P.ipos(x.loopYield), "after a dispatch the type buffer is reset to \"\" before the next field", "after a dispatch a path reaches the next field without resetting the event type: the type leaks into the next event")
+	missSB := reachesAvoiding(start, x.next, func(in ssa.Instruction) bool { return x.isSBCall(in, "Reset") }, nil)
+	c.check(!missSB, fnLabel(it)+":dispatch-resets-data", P.ipos(x.loopYield), "after a dispatch the data buffer is reset", "after a dispatch a path reaches the next field without resetting the data buffer: data leaks into the next event")
+	// the ID buffer is not stored on the dispatch path
+	touched := false
+	forward([]startPoint{start}, func(in ssa.Instruction) searchAction {
+		if in == ssa.Instruction(x.next) {
+			return stopPath
+		}
+		if _, ok := x.isIDStore(in); ok {
+			touched = true
+		}
+		return cont
+	})
+	c.check(!touched, fnLabel(it)+":dispatch-keeps-id", P.ipos(x.loopYield), "the last-event-ID buffer persists across dispatches", "the last-event-ID buffer is overwritten on dispatch: it must persist until another id field is received")
+}
+
+func r01_4(c *Ctx) {
+	P := c.P
+	x := findInterp(P)
+	if x == nil || x.loopYield == nil || x.dirtyHead == nil {
+		c.anchor("interpreter loop / dirty flag")
+		return
+	}
+	it := x.fn
+	head, ok := x.dirtyHead.(*ssa.Phi)
+	if !ok {
+		c.undecided(fnLabel(it)+":dirty", P.pos(it.Pos()), "dirty is not a loop-carried phi")
+		return
+	}
+	// initial value false
+	initOK := false
+	var latchVal ssa.Value
+	for i, e := range head.Edges {
+		pred := head.Block().Preds[i]
+		if !head.Block().Dominates(pred) {
+			if b, isC := constBool(e); isC && !b {
+				initOK = true
+			}
+		} else {
+			latchVal = e
+		}
+	}
+	c.check(initOK, fnLabel(it)+":dirty-initial", P.pos(it.Pos()), "dirty starts false", "dirty does not start false: an empty stream would dispatch an event")
+	merge, ok := latchVal.(*ssa.Phi)
+	if !ok {
+		c.undecided(fnLabel(it)+":dirty-merge", P.pos(it.Pos()), "the per-iteration dirty value is not a phi over the switch paths")
+		return
+	}
+	// body entry: true edge of Parser.Next
+	var bodyE *cfgEdge
+	for _, ifi := range ifsIn(it) {
+		if s, ok := boolEdge(ifi, func(v ssa.Value) bool { return v == ssa.Value(x.next) }); ok {
+			bodyE = &cfgEdge{ifi.Block(), s}
+		}
+	}
+	if bodyE == nil {
+		c.anchor("loop body entry")
+		return
+	}
+	// enumerate acyclic paths from the body entry to the merge block
+	type path struct {
+		blocks []*ssa.BasicBlock
+	}
+	var paths [][]*ssa.BasicBlock
+	var dfs func(b *ssa.BasicBlock, cur []*ssa.BasicBlock, seen map[*ssa.BasicBlock]bool)
+	dfs = func(b *ssa.BasicBlock, cur []*ssa.BasicBlock, seen map[*ssa.BasicBlock]bool) {
+		if len(paths) > 4096 {
+			return
+		}
+		cur = append(cur, b)
+		if b == merge.Block() {
+			paths = append(paths, append([]*ssa.BasicBlock(nil), cur...))
+			return
+		}
+		if seen[b] {
+			return
+		}
+		seen[b] = true
+		for _, s := range b.Succs {
+			dfs(s, cur, seen)
+		}
+		delete(seen, b)
+	}
+	dfs(bodyE.From.Succs[bodyE.Idx], nil, map[*ssa.BasicBlock]bool{})
+	if len(paths) == 0 {
+		c.undecided(fnLabel(it)+":dirty-paths", P.pos(it.Pos()), "no path from the loop body to the dirty merge")
+		return
+	}
+	for _, p := range paths {
+		effects := ""
+		dispatch := false
+		for _, b := range p[:len(p)-1] {
+			for _, in := range b.Instrs {
+				if x.isSBCall(in, "WriteString") || x.isSBCall(in, "WriteByte") || x.isSBCall(in, "Write") || x.isSBCall(in, "WriteRune") {
+					effects += "data "
+				}
+				if _, ok := x.isTypStore(in); ok {
+					effects += "type "
+				}
+				if _, ok := x.isIDStore(in); ok {
+					effects += "id "
+				}
+				if x.isOnRetryCall(in) {
+					effects += "retry "
+				}
+				if in == ssa.Instruction(x.loopYield) {
+					dispatch = true
+				}
+			}
+		}
+		last := p[len(p)-2]
+		var val ssa.Value
+		for i, pr := range merge.Block().Preds {
+			if pr == last {
+				val = merge.Edges[i]
+			}
+		}
+		name := fnLabel(it) + ":dirty-path(" + pathLabel(p) + ")"
+		pos := P.pos(last.Instrs[0].Pos())
+		if !last.Instrs[0].Pos().IsValid() {
+			pos = P.ipos(last.Instrs[len(last.Instrs)-1])
+		}
+		b, isC := constBool(val)
+		switch {
+		case dispatch:
+			c.check(isC && !b, name, pos, "dispatch path leaves dirty false", "after a dispatch dirty is not false: the same event is dispatched again")
+		case effects != "":
+			c.check(isC && b, name, pos, "path changing "+effects+"marks dirty", "a path that changes interpreter state ("+effects+") does not set dirty: the event is lost (not dispatched)")
+		default:
+			c.check(val == ssa.Value(head), name, pos, "path without state change leaves dirty unchanged", "a path that changes nothing (ignored field) alters dirty: an ignored field (NUL id, invalid retry, unknown) produces or suppresses an event")
+		}
+	}
+}
+
+func pathLabel(p []*ssa.BasicBlock) string {
+	s := ""
+	for i, b := range p {
+		if i > 0 {
+			s += ">"
+		}
+		s += itoa(b.Index)
+	}
+	return s
+}
+
+// noNULGuard: target block is dominated by the edge on which value v has no NUL byte.
+func noNULGuard(fn *ssa.Function, target *ssa.BasicBlock, isV func(ssa.Value) bool) bool {
+	for _, ifi := range ifsIn(fn) {
+		// strings.IndexByte(v, 0) compared with -1 / 0
+		op, k, succ, ok := cmpConstEdge(ifi, func(x ssa.Value) bool {
+			call, ok := isStaticCall(x, "strings.IndexByte")
+			if !ok || !isV(call.Call.Args[0]) {
+				return false
+			}
+			b, isK := constInt(call.Call.Args[1])
+			return isK && b == 0
+		})
+		if ok {
+			var e int
+			switch {
+			case op == token.NEQ && k == -1:
+				e = 1 - succ
+			case op == token.EQL && k == -1:
+				e = succ
+			case op == token.GEQ && k == 0:
+				e = 1 - succ
+			case op == token.LSS && k == 0:
+				e = succ
+			default:
+				continue
+			}
+			if edgeDominates(ifi.Block(), e, target) {
+				return true
+			}
+		}
+		// strings.Contains(v, "\x00") / ContainsRune(v, 0)
+		if s, ok := boolEdge(ifi, func(x ssa.Value) bool {
+			if call, ok := isStaticCall(x, "strings.Contains"); ok {
+				k, isK := constString(call.Call.Args[1])
+				return isV(call.Call.Args[0]) && isK && k == "\x00"
+			}
+			if call, ok := isStaticCall(x, "strings.ContainsRune"); ok {
+				k, isK := constInt(call.Call.Args[1])
+				return isV(call.Call.Args[0]) && isK && k == 0
+			}
+			return false
+		}); ok && edgeDominates(ifi.Block(), 1-s, target) {
+			return true
+		}
+	}
+	return false
+}
+
+func r01_5(c *Ctx) {
+	P := c.P
+	x := findInterp(P)
+	if x == nil || x.idCell == nil {
+		c.anchor("interpreter's last-event-ID cell")
+		return
+	}
+	it := x.fn
+	isVal := func(v ssa.Value) bool { _, ok := isFieldLoad(v, "parser.Field", "Value"); return ok }
+	n := 0
+	// every store to the cell (anywhere: the cell is read()'s parameter cell)
+	root := cellRoot(x.idCell)
+	_, stores, esc := cellStores(root)
+	if esc {
+		c.bad(fnLabel(it)+":id-cell-escapes", P.pos(it.Pos()), "the last-event-ID buffer's address escapes")
+	}
+	for _, st := range stores {
+		if _, isParam := st.Val.(*ssa.Parameter); isParam && st.Parent() != it {
+			continue // seeding by read()'s parameter
+		}
+		n++
+		name := fnLabel(st.Parent()) + ":store(last-event-id)"
+		if st.Parent() != it {
+			c.bad(name, P.ipos(st), "the last-event-ID buffer is written outside the interpreter")
+			continue
+		}
+		c.check(isVal(st.Val) && inFieldCase(it, "id", st.Block()) && noNULGuard(it, st.Block(), isVal), name, P.ipos(st),
+			"the buffer is set to the id field's value only when it contains no NUL", "the last-event-ID buffer is stored without the NUL check (or outside the id case / not from the field value): an id containing NUL must be ignored")
+	}
+	if n == 0 {
+		c.bad(fnLabel(it)+":store(last-event-id)", P.pos(it.Pos()), "the id field never updates the last-event-ID buffer")
+	}
+	// Message.UnmarshalText: ID.value store under the NUL guard
+	um := P.Fn("(*Message).UnmarshalText")
+	if um == nil {
+		c.anchor("(*Message).UnmarshalText")
+		return
+	}
+	m := 0
+	eachInstr(um, func(in ssa.Instruction) {
+		st, ok := in.(*ssa.Store)
+		if !ok {
+			return
+		}
+		base, ok := isFieldSel(st.Addr, "messageField", "value")
+		if !ok {
+			return
+		}
+		if _, ok := isFieldSel(rootParentField(base), "Message", "ID"); !ok {
+			return
+		}
+		m++
+		c.check(isVal(st.Val) && noNULGuard(um, st.Block(), isVal), fnLabel(um)+":store(ID)", P.ipos(st), "Message.ID is set only from an id value without NUL", "Message.UnmarshalText stores an id value without the NUL check")
+	})
+	if m == 0 {
+		c.bad(fnLabel(um)+":store(ID)", P.pos(um.Pos()), "UnmarshalText never sets the ID")
+	}
+}
+
+// rootParentField: for &x.ID.messageField returns &x.ID
+func rootParentField(v ssa.Value) ssa.Value {
+	if fa, ok := v.(*ssa.FieldAddr); ok {
+		if _, n, _, _ := fieldSel(fa); n == "messageField" {
+			return fa.X
+		}
+	}
+	return v
+}
+
+func r01_7(c *Ctx) {
+	P := c.P
+	x := findInterp(P)
+	if x == nil || x.perr == nil {
+		c.anchor("interpreter tail (Parser.Err after the loop)")
+		return
+	}
+	it := x.fn
+	isPerr := func(v ssa.Value) bool { return v == ssa.Value(x.perr) }
+	isEOFCmp := func(v ssa.Value) bool {
+		b, ok := v.(*ssa.BinOp)
+		if !ok || b.Op != token.EQL {
+			return false
+		}
+		isEOF := func(y ssa.Value) bool {
+			a, ok := loadedFrom(y)
+			if !ok {
+				return false
+			}
+			g, ok := a.(*ssa.Global)
+			return ok && g.Name() == "EOF" && g.Pkg.Pkg.Path() == "io"
+		}
+		return (isPerr(b.X) && isEOF(b.Y)) || (isPerr(b.Y) && isEOF(b.X))
+	}
+	if x.tailYield == nil {
+		c.bad(fnLabel(it)+":eof-flush", P.pos(it.Pos()), "no pending-event flush after the loop: a terminated last event is lost at a clean end of stream")
+	} else {
+		dirtyOK := x.dirtyHead != nil && guardedByBool(it, x.tailYield.Block(), func(v ssa.Value) bool { return v == x.dirtyHead }, true)
+		eofOK := guardedByBool(it, x.tailYield.Block(), isEOFCmp, true)
+		c.check(dirtyOK && eofOK && instrDominates(x.perr, x.tailYield), fnLabel(it)+":eof-flush", P.ipos(x.tailYield),
+			"the pending event is flushed only when dirty and the parser reports io.EOF (clean end)", "the pending event is flushed without (dirty && err == io.EOF): a cut-off event is dispatched, or an empty one")
+	}
+	n := 0
+	eachInstr(it, func(in ssa.Instruction) {
+		call, ok := isYieldCall(in)
+		if !ok || len(call.Call.Args) != 2 || isNilConst(call.Call.Args[1]) {
+			return
+		}
+		n++
+		src := sources(call.Call.Args[1])
+		good := len(src) == 1 && isPerr(src[0]) && guardedByNil(it, call.Block(), isPerr, false)
+		c.check(good, fnLabel(it)+":error-yield", P.ipos(call), "the error yield passes the parser's error, only when it is non-nil", "the error yield is not (the parser's error, under err != nil)")
+	})
+	if n == 0 {
+		c.bad(fnLabel(it)+":error-yield", P.pos(it.Pos()), "the iterator never yields an error")
+	}
+}
+
+func r01_8(c *Ctx) {
+	P := c.P
+	ss := P.Fn("(*parser.FieldParser).scanSegment")
+	tf := P.Fn("parser.trimFirstSpace")
+	if ss == nil || tf == nil || len(ss.Params) != 3 {
+		c.anchor("parser.scanSegment / trimFirstSpace")
+		return
+	}
+	chunk := ss.Params[1]
+	// trimFirstSpace: removes exactly one leading ' '
+	{
+		good := len(tf.Params) == 1
+		var sliceRet, sameRet bool
+		for _, ret := range returnsOf(tf) {
+			switch v := ret.Results[0].(type) {
+			case *ssa.Slice:
+				lo, isK := constInt(v.Low)
+				if v.X == ssa.Value(tf.Params[0]) && isK && lo == 1 && v.High == nil {
+					// guarded by c[0] == ' '
+					g := false
+					for _, ifi := range ifsIn(tf) {
+						cnd := decodeIf(ifi)
+						if cnd.Y == nil || cnd.Op != token.EQL {
+							continue
+						}
+						k, isK := constInt(cnd.Y)
+						idx, isIdx := cnd.X.(*ssa.Index)
+						if isK && k == ' ' && isIdx && idx.X == ssa.Value(tf.Params[0]) {
+							if i0, ok := constInt(idx.Index); ok && i0 == 0 && edgeDominates(ifi.Block(), cnd.succWhen(true), ret.Block()) {
+								g = true
+							}
+						}
+					}
+					sliceRet = g
+				} else {
+					good = false
+				}
+			case *ssa.Parameter:
+				sameRet = v == tf.Params[0]
+			default:
+				good = false
+			}
+		}
+		c.check(good && sliceRet && sameRet, "parser.trimFirstSpace", P.pos(tf.Pos()), "removes exactly one leading space when present, nothing otherwise", "trimFirstSpace does not remove exactly one leading U+0020 (when present): field values gain or lose spaces")
+	}
+	// colon position: strings.IndexByte(chunk, ':')
+	var colon *ssa.Call
+	eachInstr(ss, func(in ssa.Instruction) {
+		if call, ok := isStaticCall(in, "strings.IndexByte"); ok && call.Call.Args[0] == ssa.Value(chunk) {
+			if k, ok := constInt(call.Call.Args[1]); ok && k == ':' {
+				colon = call
+			}
+		}
+	})
+	if colon == nil {
+		c.bad("parser.scanSegment:colon", P.pos(ss.Pos()), "the field name is not split at the first colon (strings.IndexByte(chunk, ':'))")
+		return
+	}
+	// colonPos phi: colon, or len(chunk) when -1
+	var colonPos ssa.Value
+	eachInstr(ss, func(in ssa.Instruction) {
+		if phi, ok := in.(*ssa.Phi); ok {
+			hasColon, hasLen := false, false
+			for _, e := range phi.Edges {
+				if e == ssa.Value(colon) {
+					hasColon = true
+				}
+				if isLenOf(e, chunk) {
+					hasLen = true
+				}
+			}
+			if hasColon && hasLen {
+				colonPos = phi
+			}
+		}
+	})
+	if colonPos == nil {
+		c.undecided("parser.scanSegment:colon-or-end", P.ipos(colon), "no `colon position or end of line` value found")
+		return
+	}
+	// name lookup: getFieldName(chunk[:colonPos])
+	var gfn *ssa.Call
+	eachInstr(ss, func(in ssa.Instruction) {
+		if call, ok := isModCall(in, "parser.getFieldName"); ok {
+			if sl, ok := call.Call.Args[0].(*ssa.Slice); ok && sl.X == ssa.Value(chunk) && sl.Low == nil && sl.High == colonPos {
+				gfn = call
+			}
+		}
+	})
+	c.check(gfn != nil, "parser.scanSegment:name", P.ipos(colon), "the field name is the text before the first colon (or the whole line)", "the field name is not chunk[:colonPos]")
+	// the too-long-name early exit must not reject valid names: bound >= max name length
+	for _, ifi := range ifsIn(ss) {
+		op, k, succ, ok := cmpConstEdge(ifi, func(v ssa.Value) bool { return v == ssa.Value(colon) })
+		if !ok || (op != token.GTR && op != token.GEQ) {
+			continue
+		}
+		mx := 0
+		for _, v := range fieldNameConsts(P) {
+			if v != ":" && len(v) > mx {
+				mx = len(v)
+			}
+		}
+		bound := int(k)
+		if op == token.GEQ {
+			bound--
+		}
+		_ = succ
+		c.check(bound >= mx, "parser.scanSegment:name-length-bound", P.pos(ifi.Pos()), "the early rejection of long names keeps every valid field name", "the name-length shortcut rejects colon positions of valid field names (bound "+itoa(bound)+" < "+itoa(mx)+")")
+	}
+	// value stores
+	isOKext := func(v ssa.Value) bool { e, ok := v.(*ssa.Extract); return ok && gfn != nil && e.Tuple == ssa.Value(gfn) && e.Index == 1 }
+	nVal := 0
+	for _, st := range slSinks(P, "parser.Field", "Value") {
+		if st.Parent() != ss {
+			continue
+		}
+		nVal++
+		name := "parser.scanSegment:value"
+		switch v := st.Val.(type) {
+		case *ssa.Const:
+			s, _ := constString(v)
+			// blank line: chunk == ""
+			g := false
+			for _, ifi := range ifsIn(ss) {
+				cnd := decodeIf(ifi)
+				if cnd.Y == nil || cnd.Op != token.EQL || cnd.X != ssa.Value(chunk) {
+					continue
+				}
+				if k, ok := constString(cnd.Y); ok && k == "" && edgeDominates(ifi.Block(), cnd.succWhen(true), st.Block()) {
+					g = true
+				}
+			}
+			c.check(s == "" && g, name+"(end-of-event)", P.ipos(st), "an empty field (end of event) is produced only for a blank line", "the end-of-event marker is produced for a non-blank line")
+		case *ssa.Call:
+			if v.Call.StaticCallee() != tf {
+				c.undecided(name, P.ipos(st), "value is not trimFirstSpace(...)")
+				continue
+			}
+			sl, ok := v.Call.Args[0].(*ssa.Slice)
+			if !ok || sl.X != ssa.Value(chunk) || sl.High != nil {
+				c.bad(name, P.ipos(st), "the value is not the rest of the line")
+				continue
+			}
+			mn, ok := sl.Low.(*ssa.Call)
+			isMin := ok
+			if isMin {
+				b, okB := mn.Call.Value.(*ssa.Builtin)
+				isMin = okB && b.Name() == "min" && len(mn.Call.Args) == 2 && isLenOf(mn.Call.Args[1], chunk)
+			}
+			if !isMin {
+				c.bad(name, P.ipos(st), "the value does not start right after the colon (min(colon+1, len))")
+				continue
+			}
+			if guardedByBool(ss, st.Block(), isOKext, true) {
+				// named field: min(colonPos+1, l)
+				add, ok := mn.Call.Args[0].(*ssa.BinOp)
+				good := ok && add.Op == token.ADD && add.X == colonPos
+				if good {
+					k, isK := constInt(add.Y)
+					good = isK && k == 1
+				}
+				c.check(good, name+"(field)", P.ipos(st), "value = trimFirstSpace(chunk[min(colonPos+1, len):])", "a named field's value does not start one past the colon")
+			} else {
+				// comment: colonPos == 0 and keepComments
+				k, isK := constInt(mn.Call.Args[0])
+				g := false
+				for _, ifi := range ifsIn(ss) {
+					op, kk, succ, ok := cmpConstEdge(ifi, func(v ssa.Value) bool { return v == colonPos })
+					if ok && op == token.EQL && kk == 0 && edgeDominates(ifi.Block(), succ, st.Block()) {
+						g = true
+					}
+				}
+				c.check(isK && k == 1 && g, name+"(comment)", P.ipos(st), "a comment is a line whose first character is the colon; its text starts after it", "a comment is produced for a line not starting with a colon, or its text offset is wrong")
+			}
+		default:
+			c.undecided(name, P.ipos(st), "unrecognised value source "+describe(st.Val))
+		}
+	}
+	if nVal < 3 {
+		c.undecided("parser.scanSegment:value", P.pos(ss.Pos()), "expected value stores for field, end-of-event and comment")
 	}
 }
